@@ -201,6 +201,8 @@ def _run_rest(check, an: Analysis):
     c08._check_trigger_coverage(check, an, c08.condition_classes(an))
     # ---- R ------------------------------------------------------------------
     check_run_root(check, an, 'R')
+    from . import _scope as _kernel
+    _kernel.check_kernel_core(check, an)
     check.stats.update(an.stats())
 
 
